@@ -92,6 +92,54 @@ impl SimpleSerializer for DictionaryUtf8Builder {
         .ctx(self)
     }
 
+    fn serialize_i8(&mut self, v: i8) -> Result<()> {
+        self.serialize_str(&v.to_string())
+    }
+
+    fn serialize_i16(&mut self, v: i16) -> Result<()> {
+        self.serialize_str(&v.to_string())
+    }
+
+    fn serialize_i32(&mut self, v: i32) -> Result<()> {
+        self.serialize_str(&v.to_string())
+    }
+
+    fn serialize_i64(&mut self, v: i64) -> Result<()> {
+        self.serialize_str(&v.to_string())
+    }
+
+    fn serialize_u8(&mut self, v: u8) -> Result<()> {
+        self.serialize_str(&v.to_string())
+    }
+
+    fn serialize_u16(&mut self, v: u16) -> Result<()> {
+        self.serialize_str(&v.to_string())
+    }
+
+    fn serialize_u32(&mut self, v: u32) -> Result<()> {
+        self.serialize_str(&v.to_string())
+    }
+
+    fn serialize_u64(&mut self, v: u64) -> Result<()> {
+        self.serialize_str(&v.to_string())
+    }
+
+    fn serialize_f32(&mut self, v: f32) -> Result<()> {
+        self.serialize_str(&v.to_string())
+    }
+
+    fn serialize_f64(&mut self, v: f64) -> Result<()> {
+        self.serialize_str(&v.to_string())
+    }
+
+    fn serialize_char(&mut self, v: char) -> Result<()> {
+        self.serialize_str(&v.to_string())
+    }
+
+    fn serialize_bool(&mut self, v: bool) -> Result<()> {
+        self.serialize_str(&v.to_string())
+    }
+
     fn serialize_unit_variant(
         &mut self,
         _: &'static str,
